@@ -39,3 +39,38 @@ Section C20gen.
 End C20gen.
 Print Assumptions C20_code_pool_released.
 Print Assumptions C20_code_is_model.
+
+(* ---- the two front ends AS TRANSLATED in skeleton mode (Gen/G_front_single.v, Gen/G_front_joint.v; facts:
+   Proofs/GenEquivFE.v): given the other front end's kind of input - the stacking step then raises AttributeError
+   (single) / IndexError (joint) - the call raises TypeError and the main loop is never entered; an error of the main loop
+   surfaces as itself ---- *)
+From Ticc Require Import Gen.G_front_single Gen.G_front_joint Proofs.GenEquivFE.
+Theorem C20_code_single_wrong_input : forall (V : Type) (getattr : V -> string -> V)
+    (oracle : list (event V) -> string -> list V -> res V)
+    (data W K lam beta lim eps procs m biased params : V) (log : list (event V)),
+  oracle log f_args [W; K; lam; beta; lim; eps; procs; m; biased] = Ret params ->
+  oracle (log ++ [Ev f_args [W; K; lam; beta; lim; eps; procs; m; biased]])%list f_stack [data; W] = Raise "AttributeError"%string ->
+  g_ticc_labels V getattr oracle data W K lam beta lim eps procs m biased log
+  = (Raise "TypeError"%string, (log ++ [Ev f_args [W; K; lam; beta; lim; eps; procs; m; biased]; Ev f_stack [data; W]])%list).
+Proof. exact single_wrong_input. Qed.
+Print Assumptions C20_code_single_wrong_input.
+
+Theorem C20_code_joint_wrong_input : forall (V : Type) (veq : V -> V -> bool) (getattr : V -> string -> V)
+    (oracle : list (event V) -> string -> list V -> res V)
+    (data W K lam beta lim eps procs m biased lst : V) (log : list (event V)),
+  oracle log "list"%string [data] = Ret lst ->
+  oracle (log ++ [Ev "list"%string [data]])%list f_stack_multi [lst; W] = Raise "IndexError"%string ->
+  g_ticc_joint_labels V veq getattr oracle data W K lam beta lim eps procs m biased log
+  = (Raise "TypeError"%string, (log ++ [Ev "list"%string [data]; Ev f_stack_multi [lst; W]])%list).
+Proof. exact joint_wrong_input. Qed.
+Print Assumptions C20_code_joint_wrong_input.
+
+Theorem C20_code_single_main_loop_error_surfaces : forall (V : Type) (getattr : V -> string -> V)
+    (oracle : list (event V) -> string -> list V -> res V)
+    (data W K lam beta lim eps procs m biased params stacked : V) (e : string) (log : list (event V)),
+  oracle log f_args [W; K; lam; beta; lim; eps; procs; m; biased] = Ret params ->
+  oracle (log ++ [Ev f_args [W; K; lam; beta; lim; eps; procs; m; biased]])%list f_stack [data; W] = Ret stacked ->
+  oracle (log ++ [Ev f_args [W; K; lam; beta; lim; eps; procs; m; biased]; Ev f_stack [data; W]])%list f_fit [params; stacked] = Raise e ->
+  fst (g_ticc_labels V getattr oracle data W K lam beta lim eps procs m biased log) = Raise e.
+Proof. exact single_fit_error_propagates. Qed.
+Print Assumptions C20_code_single_main_loop_error_surfaces.
